@@ -672,6 +672,22 @@ _ = itertools
 
 # ----------------------------------------------------------------------------- shared phases
 
+def prove(ctx, obligations, refutations=()):
+    """compile the family's proof files (until they are in _CoqProject), then the obligations; refutation
+    witnesses (`..._refuted` theorems: the model violates the property on a concrete input) are compiled too
+    but are not obligations: when one stops compiling the finding no longer reproduces in the model"""
+    ensure_coq(ctx, MODEL_FILES + PROOF_FILES)
+    ctx.prove([], obligations)
+    for rf in refutations:
+        rc, out = _vlib.sh(["timeout", "900", "coqc", "-Q", ".", "SE", "-w", "-notation-overridden", rf], cwd=_vlib.COQ, timeout=930)
+        if rc != 0:
+            msg = "refutation %s no longer compiles: the finding no longer reproduces in the model (update model, theorem and known_findings.txt together)" % rf
+            ctx.notes.append(msg)
+            print("NOTICE: " + msg)
+        else:
+            ctx.cov.setdefault("refutations_checked", []).append(rf)
+
+
 def build(ctx):
     drv = ctx.build_driver("arith_driver")
     if not ensure_coq(ctx, MODEL_FILES):
@@ -741,9 +757,10 @@ def correspondence_phase(ctx, pid, drv, model, recipes, stats, search=False):
 import os
 import vlib as _vlib
 
-MODEL_FILES = ["Expr/Arith.v", "Expr/Canon.v"]
-PROOF_FILES = []
-EXTERNAL_DEPS = ["Num/NumModel.vo", "Expr/Cmp.vo", "Expr/Wf.vo", "Num/NumC05.vo"]
+MODEL_FILES = ["Expr/Arith.v", "Expr/Canon.v", "Expr/ArithGuards.v"]
+PROOF_FILES = ["Expr/ArithNum.v", "Expr/ArithDict.v", "Expr/ArithAddProofs.v", "Expr/Denote.v", "Expr/ArithFuel.v",
+               "Expr/ArithFuelMono.v", "Expr/ArithMulProofs.v", "Expr/ArithProg.v", "Expr/DenoteMul.v", "Expr/ArithMulUnique.v"]
+EXTERNAL_DEPS = ["Num/NumModel.vo", "Expr/Cmp.vo", "Expr/Wf.vo", "Num/NumC05.vo", "Expr/CmpProofs.vo"]
 
 
 def ensure_coq(ctx, files):
